@@ -9,6 +9,7 @@ package absnfs
 
 import (
 	"fmt"
+	"syscall"
 	"testing"
 )
 
@@ -349,6 +350,71 @@ func vfcDirected(t *testing.T, tr *vfTrace, firstHist int, seed int64) int {
 			look()
 			c.probeDir(c.fresh(R, "e"), "c")
 		})
+	}
+	// ---- family 7: the k-th mutating backend operation of a namespace request fails once (EIO,
+	// EPERM, ENOSPC). A request that reports failure must leave the tree as it was, and whatever it
+	// reports, the caches must agree with the backend afterwards (the probes that follow).
+	for _, cfg := range []vfcCfg{{Neg: true, Dir: true, TTL: "def", Profile: "ns"}, {Neg: false, Dir: false, TTL: "def", Profile: "ns"}} {
+		for mi, mut := range []string{"create", "createx", "mkdir", "symlink", "remove", "rmdir", "rename", "renameover"} {
+			for k := int64(1); k <= 3; k++ {
+				for _, nonroot := range []bool{false, true} {
+					if nonroot && mi > 3 {
+						continue // ownership is only recorded by the creating procedures
+					}
+					mut, k, nonroot := mut, k, nonroot
+					errno := []syscall.Errno{syscall.EIO, syscall.EPERM, syscall.ENOSPC}[(mi+int(k))%3]
+					hit := false
+					run(cfg, func(c *vfcClient, R uint64) {
+						c.mkdir(R, "a", vfSattr{Mode: u32p(0777)})
+						a := c.handleOf("a")
+						c.create(a, "old", 0, vfSattr{Mode: u32p(0666)}, "")
+						c.mkdir(a, "od", vfSattr{Mode: u32p(0777)})
+						c.create(a, "o2", 0, vfSattr{Mode: u32p(0666)}, "")
+						c.probeDir(a, "n", "old", "od", "o2", "new")
+						if nonroot {
+							c.cred = vfCred{Flavor: AUTH_SYS, UID: 1000, GID: 1000, IP: "127.0.0.1", Port: 1000}
+						}
+						c.flush()
+						c.fs.SetFaultAt(k, errno)
+						switch mut {
+						case "create":
+							c.create(a, "n", 0, vfSattr{Mode: u32p(0600)}, "")
+						case "createx":
+							c.create(a, "n", 1, vfSattr{Mode: u32p(0640), Size: u64p(0)}, "")
+						case "mkdir":
+							c.mkdir(a, "n", vfSattr{Mode: u32p(0700)})
+						case "symlink":
+							c.symlink(a, "n", "old", vfSattr{})
+						case "remove":
+							c.remove(a, "old")
+						case "rmdir":
+							c.rmdir(a, "od")
+						case "rename":
+							c.rename(a, "old", a, "new")
+						case "renameover":
+							c.rename(a, "old", a, "o2")
+						}
+						if c.fs.FaultHit() {
+							hit = true
+							c.pending["nsfault"] = true
+						}
+						c.cred = vfRoot
+						c.probeDir(a, "n", "old", "od", "o2", "new")
+						// a retry of the same request must be judged like any first attempt
+						switch mut {
+						case "create", "createx":
+							c.create(a, "n", 1, vfSattr{Mode: u32p(0600)}, "")
+						case "mkdir":
+							c.mkdir(a, "n", vfSattr{Mode: u32p(0700)})
+						case "symlink":
+							c.symlink(a, "n", "old", vfSattr{})
+						}
+						c.probeDir(a, "n", "old", "od", "o2", "new")
+					})
+					_ = hit
+				}
+			}
+		}
 	}
 	// ---- family 4: another client's read-only requests land between two backend operations of a
 	// mutating request (deterministic interleaving at every backend-operation boundary); what
